@@ -2,6 +2,7 @@
 """C07 - comparisons form a consistent total order.  MC_C07: laws on the spec over a 25-value
 pool (all pairs, all triples).  S2C: every pair x 6 operators on the real parser, operands as
 variables and, where expressible, as literals.  C2S: seeded random pairs.  Verdicts: Trace_C07."""
+import datetime
 import json
 import os
 import random
@@ -37,8 +38,14 @@ def observe(lib, cases):
             p = lib.Parser()
         a, b, op, mode = c['a'], c['b'], c['op'], c['mode']
         if mode == 'var':
-            p.set_variable('va', dec(a))
-            p.set_variable('vb', dec(b))
+            # 'us': microseconds the host's date-time carries beyond the millisecond (a serial is a double: they vanish in it)
+            va, vb = dec(a), dec(b)
+            if a.get('t') == 'date' and c.get('us'):
+                va = va + datetime.timedelta(microseconds=c['us'][0])
+            if b.get('t') == 'date' and c.get('us'):
+                vb = vb + datetime.timedelta(microseconds=c['us'][1])
+            p.set_variable('va', va)
+            p.set_variable('vb', vb)
             f = 'va%svb' % op
         else:
             la, lb = literal(a), literal(b)
@@ -51,13 +58,28 @@ def observe(lib, cases):
     return obs
 
 
+def raw_value(v):
+    if v.get('t') == 'rawdt':
+        return datetime.datetime.fromisoformat(v['iso'])
+    if v.get('t') == 'rawint':
+        return int(v['v'])
+    return dec(v)
+
+
 def laws_obs(lib, pairs):
     """all six operators on (a, b) and < > on (b, a): the consistency laws need no oracle"""
     out = []
     p = lib.Parser()
+    def raw(v):
+        if v.get('t') == 'rawdt':
+            import datetime
+            return datetime.datetime.fromisoformat(v['iso'])
+        if v.get('t') == 'rawint':
+            return int(v['v'])
+        return dec(v)
     for a, b in pairs:
-        p.set_variable('va', dec(a))
-        p.set_variable('vb', dec(b))
+        p.set_variable('va', raw(a))
+        p.set_variable('vb', raw(b))
         r = {}
         for name, f in (('lt', 'va<vb'), ('eq', 'va=vb'), ('gt', 'va>vb'), ('le', 'va<=vb'), ('ge', 'va>=vb'), ('ne', 'va<>vb'),
                         ('rlt', 'vb<va'), ('rgt', 'vb>va'), ('req', 'vb=va')):
@@ -169,7 +191,8 @@ def main(tier, replay=None):
             {'t': 'date', 'y': 1900, 'mo': 1, 'd': 1, 'ms': 0}, {'t': 'date', 'y': 1900, 'mo': 1, 'd': 1, 'ms': 43200000},
             {'t': 'date', 'y': 1900, 'mo': 1, 'd': 2, 'ms': 0}, {'t': 'date', 'y': 1900, 'mo': 2, 'd': 28, 'ms': 0},
             {'t': 'date', 'y': 1900, 'mo': 3, 'd': 1, 'ms': 0}] + \
-           [enc(t) for t in ('TRUE', 'FALSE', 'true', 'False', 'WAHR', 'VRAI', 'FALSO', '1', '0', '-1', ' ', 'zzz', 'A', 'a', '#N/A')]
+           [enc(t) for t in ('TRUE', 'FALSE', 'true', 'False', 'WAHR', 'VRAI', 'FALSO', '1', '0', '-1', ' ', 'zzz', 'A', 'a', '#N/A')] + \
+           [enc(t) for t in ('e\u0301', '\u00e9', '\u212b', '\u00c5', 'A\u030a', '\ufb01', 'fi', '\u1e9e', 'SS', 'ss', '\u00df')]    # one text in several Unicode forms
     for a in seam:
         for b in seam:
             lp.append((a, b))
@@ -180,6 +203,46 @@ def main(tier, replay=None):
                 o = observe(lib, [{'a': a, 'b': b, 'op': op, 'mode': 'var'}])[0]
                 o['id'] = len(obs) + 1
                 obs.append(o)
+    import datetime as _dt
+    def DT(*a):
+        return {'t': 'rawdt', 'iso': _dt.datetime(*a).isoformat()}
+    odd = [DT(2024, 5, 17, 13, 45, 10, 15), DT(2024, 5, 17, 13, 45, 10, 16), DT(2024, 5, 17, 13, 45, 10, 0), DT(1899, 12, 31), DT(1900, 1, 1),
+           DT(1900, 1, 1, 0, 0, 0, 1), DT(2020, 1, 1, 0, 0, 0, 500), DT(2020, 1, 1), {'t': 'rawint', 'v': str(2 ** 1024)},
+           {'t': 'rawint', 'v': str(10 ** 400)}, {'t': 'rawint', 'v': str(-10 ** 400)}, {'t': 'rawint', 'v': str(2 ** 1024 + 1)},
+           enc(45429.573032407585), enc(0), enc(1), {'t': 'blank'}, enc('x'), enc(True)]
+    for a in odd:
+        for b in odd:
+            lp.append((a, b))
+    # transitivity on triples of non-blank values (no oracle): date-times a microsecond apart with the serial of one of them
+    # in the middle, seam values, near-equal floats
+    trip = []
+    tp = lib.Parser()
+    for _ in range(200 if tier == 'quick' else 6000):
+        d1 = _dt.datetime(rng.randint(1950, 2100), rng.randint(1, 12), rng.randint(1, 28), rng.randint(0, 23), rng.randint(0, 59), rng.randint(0, 59),
+                          rng.randint(0, 999998))
+        d2 = d1 + _dt.timedelta(microseconds=rng.choice([1, 1, 2, 0, 1000]))
+        tp.set_variable('vd', d1)
+        sv = tp.parse('N(vd)')['result']
+        vals = [d1, sv, d2]
+        rng.shuffle(vals)
+        trip.append(vals)
+    nb = [x for x in seam if x['t'] != 'blank']
+    for _ in range(300 if tier == 'quick' else 8000):
+        trip.append([raw_value(rng.choice(nb)) for _ in range(3)])
+    t3 = []
+    for a, b, c in trip:
+        r = {}
+        for name, x, y in (('ab', a, b), ('bc', b, c), ('ac', a, c)):
+            tp.set_variable('vx', x)
+            tp.set_variable('vy', y)
+            for opn, op in (('eq', '='), ('lt', '<')):
+                q = tp.parse('vx%svy' % op)
+                r[name + '_' + opn] = enc(q['result']) if q['error'] is None else {'t': 'err', 'c': q['error']}
+        t3.append({'kind': 'laws3', 'in': {'op': 'laws3', 'a': repr(a)[:60], 'b': repr(b)[:60], 'c': repr(c)[:60]}, 'r': r,
+                   'out': {'res': {'t': 'blank'}, 'err': ''}, 'mode': 'var', 'formula': 'transitivity'})
+    for o in t3:
+        o['id'] = len(obs) + 1
+        obs.append(o)
     for o in laws_obs(lib, lp):
         o['id'] = len(obs) + 1
         obs.append(o)
